@@ -2,7 +2,7 @@ SPECIFICATION Spec
 VIEW View
 CONSTANTS D = 3
   MaxPages = 6
-  MaxWriters = 4
+  MaxWriters = 3
   MaxCbs = 0
   MVals = {"-"}
   CVals = {"-"}
